@@ -8,8 +8,7 @@ RULE = ("TLC generates primitives, boundaries, transforms, independent products,
 
 def run(ctx):
     if ctx.replay:
-        scen = [json.load(open(ctx.replay))["trace"]["scenario"]]
-        scen[0].pop("tid", None)
+        scen = ctx.replay_scenarios()
     else:
         scen = ctx.gen("Gen_Attr", "Gen_Attr_vol", timeout=900)
         seen, out = set(), []
